@@ -291,27 +291,23 @@ def fragment_correspondence(ctx: fw.Ctx):
         reqs.append(["norm", sx])
     replies = ctx.driver.ask_many(reqs)
     bad = 0
-    hyp = {"inputs": 0, "orderOk": 0, "beforeFlatB": 0, "safe": 0, "spacing_nf": 0, "tokens": 0,
-           "basic": 0, "nonbasic_spacing_nf": 0}
+    hyp = {"inputs": 0, "orderOk": 0, "beforeFlatB": 0, "safe": 0, "spacing_nf": 0, "tokens": 0}
     for k, (origin, text, tree) in enumerate(texts):
         got, pieces, flat, facts, norm = (replies[5 * k + n] for n in range(5))
         if facts and facts[0] == "ok":
             # the decidable hypotheses / conclusions of the fragment theorems on this input, evaluated by
             # the compiled model: C01.frag_tokens_preserved and frag_safe have no exclusion (whole fragment,
-            # parentheses and calls included), C18.frag_spacing_nf holds under beforeFlatB for the container
-            # part (`File.basic`). An instance contradicting a theorem means the driver does not run
-            # the model the theorems are about. For files with parentheses / calls the spacing conclusion
-            # is only counted (not proved yet).
-            o_ok, clean, safe, nf, tk, basic = (x == "t" for x in facts[1:7])
+            # parentheses and calls included), C18.frag_spacing_nf holds under beforeFlatB (whole fragment).
+            # An instance contradicting a theorem means the driver does not run the model the theorems
+            # are about.
+            o_ok, clean, safe, nf, tk = (x == "t" for x in facts[1:6])
             hyp["inputs"] += 1
             hyp["orderOk"] += o_ok
             hyp["beforeFlatB"] += clean
             hyp["safe"] += safe
             hyp["spacing_nf"] += nf
             hyp["tokens"] += tk
-            hyp["basic"] += basic
-            hyp["nonbasic_spacing_nf"] += (not basic) and nf
-            if not safe or not tk or (basic and clean and not nf):
+            if not safe or not tk or (clean and not nf):
                 bad += 1
                 if bad <= 5:
                     ctx.tie_break("theorem-instance", "the compiled model contradicts a fragment theorem on this input",
@@ -396,6 +392,7 @@ FRAGMENT_PROBES = [
     ("Nima.C03.cex_call_comment_reordered", "C03", "f/* a */ /* b */ x"),
     ("Nima.C18.cex_block_comment_after_opener", "C18", "{ /* c */ a = 1; }"),
     ("Nima.C18.cex_comment_after_open_paren", "C18", "[\n  ( /* c */ x)\n]"),
+    ("Nima.C18.cex_comment_touching_function", "C18", "{\n  a = f/* c */ x;\n}"),
     ("Nima.C06.cex_comment_around_semicolon", "C06", "{ a = 1 # c\n; # d\n}"),
 ]
 
